@@ -320,9 +320,10 @@ example :
     ((committedView {} (demoOps.take 13)).fabs.map (fun f => (f.idx, f.acl, f.grp, f.label))) = [(1, [100, 200], [5], 7)] := by
   refine ⟨by decide, by decide, by decide, by decide, by decide, by decide⟩
 
-/-- crash points of `demoOps`: the store mutations are counted per prefix (`muts`); stopping after
-mutation 3 (the ACL write of operation 10 is the third) the node comes up with the committed view of
-the first 10 operations, whatever was acknowledged later is not there -/
+/-- crash points of `demoOps`: the store mutations are counted per prefix (`muts`); the ACL write of
+operation 10 is the third mutation, operations 11 (`kvfail`) and 12 (the label write that fails) make
+none: stopping after mutation 3 the node comes up with the committed view of the first 12 operations
+(= that of the first 10), whatever was acknowledged later is not there -/
 example :
     muts {} demoOps 9 = 2 ∧ muts {} demoOps 10 = 3 ∧ muts {} demoOps 11 = 3 ∧ muts {} demoOps 12 = 3 ∧
     muts {} demoOps 13 = 4 ∧
